@@ -422,14 +422,25 @@ func runHTTPClient(t *testing.T, c *HTTPCase, trace bool) *common.Outcome {
 			}
 		}
 		// everything still pending must be resolved by closing the client
-		if cli != nil {
-			cli.Close()
-		} else {
-			cc.Close()
-		}
+		// (in a goroutine of its own: a Close that never returns must not take the verdict on
+		// the callbacks with it)
+		closed := false
+		simrt.GoNamed("client-closer", func() {
+			simrt.MarkDaemon()
+			if cli != nil {
+				cli.Close()
+			} else {
+				cc.Close()
+			}
+			closed = true
+		})
 		simrt.SetFair(true)
 		k.Fair = true
+		simrt.WaitStuck("client-close", 5*time.Second, func() bool { return closed })
 		simrt.Quiesce(5 * time.Second)
+		if !closed {
+			o.Probe("client_close_did_not_return")
+		}
 		if o.V == nil {
 			for _, st := range reqs {
 				if st.issued && st.calls != 1 {
